@@ -23,6 +23,6 @@ For each mutation k in {{1,2}} write into /tmp/wt-out/{pid}/m<k>/ :
   - patch.diff : `git diff` of the change relative to HEAD (apply-able with `git apply` at the repository root),
   - demo.py    : a small stand-alone program, run as `cd <repo root> && PYTHONPATH=<repo root> /venv/bin/python demo.py` (it must take the repository root from the current directory / PYTHONPATH, not hard-code /tmp/wt/{pid}), that exits 0 on the unmodified tree and exits non-zero (assertion failure) with the change applied, demonstrating the property violation in terms of observable behaviour (not internal identifiers),
   - meta.json  : {{"property": "{pid}", "summary": "...", "files": [...], "needs": "what specific condition is needed for it to manifest", "tests_pass": true}}.
-Verify yourself: demo passes on clean tree, fails with patch; test-suite passes with patch. Make the mutations one at a time (git stash / git checkout -- . between them) and leave the worktree clean (git checkout -- .) at the end. Use /venv/bin/python (it has all dependencies). When a test or demo starts `parallelize` worker processes, run it under `timeout 120` so a hang cannot block you.
+Verify yourself: demo passes on clean tree, fails with patch; test-suite passes with patch. Make the mutations one at a time; NEVER use `git stash` (it is shared between worktrees) - save each patch with `git diff > file` and restore with `git checkout -- .` and leave the worktree clean (git checkout -- .) at the end. Use /venv/bin/python (it has all dependencies). When a test or demo starts `parallelize` worker processes, run it under `timeout 120` so a hang cannot block you.
 
 Finish with a short report: for each mutation the file/function changed, a one-line description, and what it needs to manifest.""")
